@@ -128,6 +128,48 @@ def run_single(rep, prop, tier, seed, n_quick, n_thorough, allow=None, families=
     report(rep, prop, name, results)
 
 
+def run_integration(rep, tier, seed):
+    """C01 also speaks about the flow-integration solver: its Optimal results are checked by the same KKT oracle.
+    (The integration solver is outside the theorems; runs that crash in its own consistency assertions or exceed the
+    time box are skipped and counted.)"""
+    import signal
+
+    class TimeBox(Exception):
+        pass
+
+    def handler(signum, frame):
+        raise TimeBox()
+
+    g = Gen(seed + 101)
+    results = []
+    skipped = collections.Counter()
+    N = 60 if tier == "thorough" else 12
+    old = signal.signal(signal.SIGALRM, handler)
+    try:
+        for case0 in load_corpus("C01_integration") + [None] * N:
+            case = case0 or C.gen_case(g, "convex_qp", None, scaling=False)
+            case["integration"] = True
+            if case0 is None:
+                case["cfg"] = {"iteration_limit": 100, "rho": g.rng.choice([1e-2, 1.0])}
+            signal.alarm(6)
+            try:
+                rec = C.run(case)
+            except TimeBox:
+                skipped["time_box"] += 1
+                continue
+            finally:
+                signal.alarm(0)
+            if rec.get("kind") != "status":
+                skipped[rec.get("kind")] += 1
+                continue
+            msg = C.oracle_C01(case, rec)
+            results.append((case, keyof(msg), msg, "integration/%s" % rec.get("status")))
+    finally:
+        signal.signal(signal.SIGALRM, old)
+    report(rep, "C01", "integration_solver", results)
+    rep.cov["oracle"]["integration_solver"]["skipped"] = dict(skipped)
+
+
 def replay(prop, path):
     with open(path) as fh:
         d = json.load(fh)
@@ -162,8 +204,10 @@ def gen_fault_cases(g, tier):
         case = dict(base)
         if kind == "eval":
             nm = r.choice([k for k in ne if ne[k] > 1] or ["obj"])
-            case["faults"] = {"eval": {"name": nm, "k": r.randint(2, max(2, ne.get(nm, 2)))}}
+            case["faults"] = {"eval": {"name": nm, "k": r.randint(3, max(3, ne.get(nm, 3)))}}
         elif kind == "start":
+            if case["sc"]["kind"] not in ("none", "custom"):      # automatic scalings evaluate in the constructor first
+                case["sc"] = {"kind": "none"}
             nm = r.choice(["obj", "obj_grad", "cons", "cons_jac", "lag_hess"])
             if base["spec"]["cl"] == [] and nm in ("cons", "cons_jac"):
                 nm = "obj"
@@ -186,6 +230,8 @@ def oracle_C07(case, rec):
     f = case.get("faults") or {}
     if k == "crash":
         return "crash: %s escaped solve() under an injected fault: %s [%s]" % (rec.get("exc"), rec.get("msg"), rec.get("frame"))
+    if k == "construct_error":
+        return None
     if case.get("variant") == "start":
         nm = f["eval"]["name"]
         # the first evaluation of each callback happens at the starting point (or at the scaling point before it)
@@ -193,7 +239,7 @@ def oracle_C07(case, rec):
             if not (nm == "lag_hess" and k in ("status", "lambda_error") and False):
                 return "start: a failure of %s at the starting point ended as %s, not as the initial-point error" % (nm, k)
         return None
-    if k == "init_error" and case["sc"]["kind"] in ("none", "custom") and not f.get("region"):
+    if k == "init_error" and case["sc"]["kind"] in ("none", "custom") and not f.get("region") and f.get("eval", {}).get("k", 0) >= 3:
         return "start: a failure after the starting point was reported as the initial-point error"
     if k == "status":
         for nm in ("x", "y", "d"):
